@@ -27,6 +27,19 @@ def main():
         good = r.violation == "Unreach_" + inv
         print("vacuity: antecedent of %s reachable in MC_Rapid/faults: %s" % (inv, "yes (depth %d)" % len(r.trace) if good else "NO"))
         ok &= good
+    # the TLAPS proof of the latch invariants must break exactly at SetCount for the latch as found (no broadcast)
+    import tlc, shutil, tempfile
+    d = tempfile.mkdtemp(prefix="verif-proof-")
+    for f in ("Gate.tla", "GateOps.tla"):
+        shutil.copy(os.path.join(tlc.SPEC, f), d)
+    src = open(os.path.join(tlc.SPEC, "GateProof.tla")).read().replace("SetCountBroadcasts = TRUE", "SetCountBroadcasts = FALSE")
+    open(os.path.join(d, "GateProof.tla"), "w").write(src)
+    okp, nobl, out = tlc.tlapm("GateProof", spec_dir=d, timeout=600)
+    failed = [l for l in out.splitlines() if "obligations failed" in l]
+    good = (not okp) and failed and failed[0].strip().startswith("[ERROR]: 1/")
+    print("TLAPS GateProof with the latch as found (SetCount does not broadcast): %s %s" % (failed[:1], "OK (one obligation, SetCount, unprovable)" if good else "UNEXPECTED"))
+    ok &= bool(good)
+    shutil.rmtree(d, ignore_errors=True)
     if "--mc-only" in sys.argv:
         return 0 if ok else 1
     st = subprocess.run(["git", "-C", "/repo", "status", "--short"], capture_output=True, text=True).stdout.strip()
